@@ -734,6 +734,11 @@ func (g *Gen) multisigTx(t uint32, u int) ([]Cand, bool) {
 		for _, s := range signers {
 			keys = append(keys, g.key(s))
 		}
+		if g.R.Chance(1, 4) {
+			// the same signers with other weights (either alone stays below the threshold, both together above it)
+			ns := types.Signers{{Address: keys[0].Addr, Weight: uint8(g.R.Range(50, 90))}, {Address: keys[1].Addr, Weight: uint8(g.R.Range(50, 90))}}
+			return []Cand{g.cand(fx.Sign(g.B.ModifySignersUnsigned(k.Addr, k.Addr, ns, exp), keys...), "multisig-reweigh", "ok")}, true
+		}
 		e := "ok"
 		kind := "multisig-spend"
 		if g.Cfg.Discards && g.R.Chance(1, 3) {
